@@ -62,6 +62,10 @@ def cases(tier, seed):
                 for solver in SOLVERS:
                     for dt in DTS[tier]:
                         out.append({"scen": scen, "spring": spring, "level": level, "solver": solver, "dt": dt, "N": NSTEPS[tier], "seed": seed})
+                # the ODE wrapper on a system assembled WITHOUT the consistent-initial-condition solve (public option; the system then
+                # stores zeros as initial accelerations / multipliers, the wrapper must still report consistent ones; seeded C17-i)
+                if "ScipyIVP" in SOLVERS:
+                    out.append({"scen": scen, "spring": spring, "level": level, "solver": "ScipyIVP", "dt": DTS[tier][0], "N": NSTEPS[tier], "seed": seed, "no_cic": True})
     return out
 
 
@@ -81,7 +85,12 @@ def check(case):
     scen, spring, level, solver, dt, N = case["scen"], case["spring"], case["level"], case["solver"], case["dt"], case["N"]
     letters = {"scen": scen, "spring": spring, "level": level, "solver": solver, "dt": dt}
     tol = DSV_TOL if solver.startswith("DSV") else SOLVER_TOL
-    system = integ.build(scen, spring, level, seed=case.get("seed", 0), opts=integ.options(tol))
+    bopts = integ.options(tol)
+    if case.get("no_cic"):
+        import dataclasses
+
+        bopts = dataclasses.replace(bopts, compute_consistent_initial_conditions=False)
+    system = integ.build(scen, spring, level, seed=case.get("seed", 0), opts=bopts)
     outcome = []
     # magnitude of the accepted states (to tell a loud abort of a numerically exploded run from a crash)
     mag = {"max": 0.0}
